@@ -64,6 +64,72 @@ ALPHAS = {"MCA": [1.0, 1.0], "CCA": [0.0, 0.0], "RDA": [0.0, 1.0]}
 ALPHA_ARG = {"MCA": 1.0, "CCA": 0.0, "RDA": [0.0, 1.0]}  # "CPCCA with alpha = 1, 0 and (0, 1)"
 
 
+# ============================================================================= constructor-parameter sweep (named_vs_cpcca)
+
+# Every constructor parameter a named class forwards to CPCCA.__init__ is moved away from its default at least once per named
+# class; the SAME keyword arguments go to the named class and to (variant)CPCCA(alpha=...).  `cases()` introspects the named
+# class' signature and emits a failing "uncovered" case for any parameter this table does not move, so a parameter added
+# upstream cannot be silently skipped.  Base of every variation: n_modes=1, random_state=7 (the fractional PCA pre-reduction
+# draws a randomized pre-estimate), everything else at ITS DEFAULT (use_pca=True, n_pca_modes=0.999, pca_init_rank_reduction=0.3).
+CTOR_BASE = {"n_modes": 1, "random_state": 7}
+CTOR_VARIATIONS = [
+    ("defaults_only", {}),
+    ("n_modes", {"n_modes": 2, "use_pca": False}),
+    ("standardize_scalar", {"standardize": True}),
+    ("standardize_per_field", {"standardize": [True, False], "use_pca": False, "n_modes": 2}),
+    ("use_coslat_scalar", {"use_coslat": True}),
+    ("use_coslat_per_field", {"use_coslat": [False, True], "use_pca": False, "n_modes": 2}),
+    ("check_nans_scalar", {"check_nans": False}),
+    ("check_nans_per_field", {"check_nans": [False, True]}),
+    ("use_pca_false", {"use_pca": False, "n_modes": 2}),
+    ("use_pca_per_field", {"use_pca": [True, False]}),
+    ("n_pca_modes_int_all", {"n_pca_modes": [2, "all"], "n_modes": 2}),
+    ("n_pca_modes_fraction", {"n_pca_modes": 0.9, "pca_init_rank_reduction": 1.0, "n_modes": 2}),
+    ("pca_init_rank_reduction", {"pca_init_rank_reduction": 1.0, "n_modes": 2}),
+    ("pca_fraction_per_field", {"n_pca_modes": [0.999, 0.8], "pca_init_rank_reduction": [1.0, 0.75], "n_modes": 2}),
+    ("pca_init_rank_reduction_randomized", {"pca_init_rank_reduction": 1.0, "n_pca_modes": 0.95, "solver": "randomized", "random_state": 11}),
+    ("compute_false", {"compute": False, "use_pca": False, "n_modes": 2}),
+    ("sample_name", {"sample_name": "s"}),
+    ("feature_name_str", {"feature_name": "f"}),
+    ("feature_name_per_field", {"feature_name": ["fx", "fy"], "sample_name": "obs", "use_pca": False, "n_modes": 2}),
+    ("solver_full", {"solver": "full", "use_pca": False, "n_modes": 2}),
+    ("solver_randomized", {"solver": "randomized", "use_pca": False}),
+    ("random_state", {"random_state": 11, "solver": "randomized", "use_pca": False}),
+    ("solver_kwargs", {"solver": "randomized", "use_pca": False, "solver_kwargs": "<per-variant>"}),
+    ("padding_per_field", {"padding": [None, "exp"], "use_pca": False, "n_modes": 2}),
+    ("padding_none", {"padding": None}),
+    ("decay_factor", {"decay_factor": [0.5, 0.1], "use_pca": False, "n_modes": 2}),
+]
+# the truncated solver is sklearn randomized_svd for real data and scipy svds(lobpcg) for complex data; the values are chosen
+# so that they CHANGE the numbers (a one-column sketch without power iterations / the smallest instead of the largest triplet):
+# a named class that drops solver_kwargs then visibly differs from CPCCA, which receives them
+SOLVER_KWARGS = {"": {"n_oversamples": 0, "n_iter": 0}, "Complex": {"which": "SM"}, "Hilbert": {"which": "SM"}}
+
+
+def _ctor_cases(named, variant, shape, spec, quick):
+    import inspect
+
+    import xeofs as xe
+
+    params = inspect.signature(getattr(xe.cross, variant + named).__init__).parameters
+    defaults = {k: v.default for k, v in params.items() if k != "self" and v.kind not in (v.VAR_KEYWORD, v.VAR_POSITIONAL)}
+    out, moved = [], set()
+    for name, over in CTOR_VARIATIONS:
+        if not set(over) <= set(defaults):
+            continue  # padding / decay_factor exist on the Hilbert classes only
+        kw = dict(CTOR_BASE)
+        kw.update(over)
+        if kw.get("solver_kwargs") == "<per-variant>":
+            kw["solver_kwargs"] = SOLVER_KWARGS[variant]
+        moved |= {k for k, v in kw.items() if v != defaults[k]}
+        out.append(dict(pair="named_vs_cpcca", model=variant + named, named=named, variant=variant, shape=list(shape), spec=spec, ctor=name, ctor_kw=kw,
+                        n_modes=kw["n_modes"], solver=kw.get("solver", "auto"), obs="core" if quick and name != "pca_init_rank_reduction" else "full"))
+    for k in sorted(set(defaults) - moved):
+        out.append(dict(pair="named_vs_cpcca", model=variant + named, named=named, variant=variant, shape=list(shape), spec=spec, ctor="uncovered:" + k, ctor_kw=None,
+                        n_modes=1, solver="n/a", obs="core"))
+    return out
+
+
 # ============================================================================= enumeration
 
 
@@ -116,6 +182,12 @@ def cases(tier, seed):
                                     out.append(dict(pair="named_vs_cpcca", model=variant + named, named=named, variant=variant, shape=[n, px, py], spec=spec,
                                                     standardize=std, coslat=cl, weights=False, use_pca=pca, n_modes=k, solver=solver,
                                                     obs=_depth(q, k, kmax, solver)))
+
+    for named in ("MCA", "CCA", "RDA"):
+        for variant in ("", "Complex", "Hilbert"):
+            for shape in ([(9, 4, 3)] if q else [(9, 4, 3), (12, 6, 4)]):
+                for spec in (["geometric"] if q else ["geometric", "flat_pair"]):
+                    out.extend(_ctor_cases(named, variant, shape, spec, q))
 
     # ---------------------------------------------------------------- B  mca_self_vs_eof
     for (n, p) in ([(6, 4), (4, 6), (12, 6)] if q else [(8, 1), (6, 4), (4, 6), (9, 6), (12, 6)]):
@@ -307,6 +379,12 @@ def ref_cross_spectrum(Mx, My, ax, ay):
     Tx = np.eye(Cxx.shape[0]) if ax == 1 else R.frac_power_psd(Cxx, (ax - 1) / 2)
     Ty = np.eye(Cyy.shape[0]) if ay == 1 else R.frac_power_psd(Cyy, (ay - 1) / 2)
     return np.linalg.svd(Tx @ Cxy @ Ty, compute_uv=False)
+
+
+def _norm_params(p):
+    import json
+
+    return json.loads(json.dumps(p, sort_keys=True, default=repr))
 
 
 def _alpha2(a):
@@ -513,18 +591,25 @@ def run_named_vs_cpcca(case, seed, feats):
     import xeofs as xe
 
     named, variant, k = case["named"], case["variant"], case["n_modes"]
+    if "ctor" in case and case["ctor_kw"] is None:
+        return dict(violations=[viol("constructor_parameter_not_varied", case["model"], "parameter %r of %s.__init__ is never moved from its default by CTOR_VARIATIONS"
+                                     % (case["ctor"].split(":", 1)[1], case["model"]), **feats)], outcome="violation")
     X, dx, Y, dy = _cross_inputs(case, seed, cplx=(variant == "Complex"))
-    kw = _cross_kw(case, k)
+    kw = dict(case["ctor_kw"]) if "ctor" in case else _cross_kw(case, k)
     refx, refy = ref_labels(dx, k), ref_labels(dy, k)
     hil = variant == "Hilbert"
 
+    stored = {}
+
     def fa():
         m = getattr(xe.cross, variant + named)(**kw)
+        stored["named"] = dict(m.get_params())
         m.fit(dx, dy, dim="time")
         return cross_obs(m, refx, refy, k, dx, dy, hilbert=hil, depth=case["obs"])
 
     def fb():
         m = getattr(xe.cross, variant + "CPCCA")(alpha=ALPHA_ARG[named], **kw)
+        stored["general"] = dict(m.get_params())
         m.fit(dx, dy, dim="time")
         return cross_obs(m, refx, refy, k, dx, dy, hilbert=hil, depth=case["obs"])
 
@@ -534,6 +619,18 @@ def run_named_vs_cpcca(case, seed, feats):
         return dict(violations=errs, outcome="violation")
     for key in a:
         C.direct(key.split("/")[0], a[key], b[key], TOL_SAME)
+    # "subclasses pin alpha and drop it from the stored parameters": apart from alpha the two configurations are the same one.
+    # This is what exposes a dropped parameter that has no numerical effect on clean data (check_nans, compute, names).
+    pa, pb = _norm_params(stored["named"]), _norm_params(stored["general"])
+    alpha_b = pb.pop("alpha", None)
+    pa.pop("alpha", None)
+    C.compared += 1
+    diff = sorted(kk for kk in set(pa) | set(pb) if pa.get(kk, "<absent>") != pb.get(kk, "<absent>"))
+    if diff:
+        C.bad("stored_parameters", "get_params() of %s and of %sCPCCA(alpha=%s) differ in %s: %s vs %s"
+              % (case["model"], variant, ALPHA_ARG[named], diff, {d: pa.get(d) for d in diff}, {d: pb.get(d) for d in diff}))
+    if alpha_b != [float(x) for x in ALPHAS[named]]:
+        C.bad("stored_parameters", "general route stores alpha=%s, expected %s" % (alpha_b, ALPHAS[named]))
     return _done(C, dict(k=k))
 
 
@@ -924,6 +1021,8 @@ def run_case(case, seed):
         feats["storage"] = case["storage"]
     if case["pair"] == "eeof_emb1":
         feats["embedding"] = 1
+    if "ctor" in case:
+        feats["ctor"] = case["ctor"]
     if case["model"] == "multi.CCA" and 1 in case["shape"][1:]:
         feats["single_feature_view"] = True
     r = RUNNERS[case["pair"]](case, seed, feats)
